@@ -101,6 +101,7 @@ impl Ctx {
         self.fault("short_write", s.short_writes);
         self.fault("interrupted_write", s.write_eintr);
         self.fault("enospc", s.enospc);
+        self.fault("full_sink_returns_zero", s.full_zero);
         self.fault("flush_error", s.flush_errors);
         self.fault("connection_drop", s.drops);
         self.fault("eof_poll", s.eof_polls);
